@@ -278,4 +278,329 @@ theorem radixNat_hex_some (ds : Str) (h : ∀ c ∈ ds, isHexDigit c = true) :
     simp only [radixNat, hdv, hge, if_false]
     exact ih (fun x hx => h x (by simp [hx])) _
 
+/-! ## evaluation depends on the visible bindings only (context independence) -/
+
+/-- two environments show the same bindings (whatever they hide underneath) -/
+def Eqv (e1 e2 : Env) : Prop := ∀ n, e1.get n = e2.get n
+
+theorem Eqv.refl (e : Env) : Eqv e e := fun _ => rfl
+
+theorem Eqv.set {e1 e2 : Env} (h : Eqv e1 e2) (n : Str) (v : Val) : Eqv (e1.set n v) (e2.set n v) := by
+  intro m
+  by_cases hm : m = n
+  · subst hm; rw [Env.get_set_same, Env.get_set_same]
+  · rw [Env.get_set_other _ _ _ _ hm, Env.get_set_other _ _ _ _ hm]; exact h m
+
+theorem Eqv.varStr {e1 e2 : Env} (h : Eqv e1 e2) (n : Str) : varStr e1 n = varStr e2 n := by
+  unfold Arith.varStr; rw [h n]
+
+theorem Eqv.elemStr {e1 e2 : Env} (h : Eqv e1 e2) (n : Str) (i : Int64) : elemStr e1 n i = elemStr e2 n i := by
+  unfold Arith.elemStr; rw [h n]
+
+theorem Eqv.setVar {e1 e2 : Env} (h : Eqv e1 e2) (n : Str) (v : Int64) : Eqv (setVar e1 n v) (setVar e2 n v) := by
+  unfold Arith.setVar; rw [h n]
+  cases e2.get n with
+  | none => exact h.set _ _
+  | some val => cases val <;> exact h.set _ _
+
+theorem Eqv.setElem {e1 e2 : Env} (h : Eqv e1 e2) (n : Str) (i v : Int64) :
+    (setElem e1 n i v).2 = (setElem e2 n i v).2 ∧ Eqv (setElem e1 n i v).1 (setElem e2 n i v).1 := by
+  unfold Arith.setElem; rw [h n]
+  cases e2.get n with
+  | none => exact ⟨rfl, h.set _ _⟩
+  | some val =>
+    cases val with
+    | scalar s =>
+      simp only
+      cases arrKey [(0, s)] i <;> exact ⟨rfl, h.set _ _⟩
+    | arr m =>
+      simp only
+      cases arrKey m i
+      · exact ⟨rfl, h⟩
+      · exact ⟨rfl, h.set _ _⟩
+
+/-- two results are the same value/error in environments that show the same bindings -/
+def Rel (r1 r2 : Env × Res) : Prop := r1.2 = r2.2 ∧ Eqv r1.1 r2.1
+
+theorem Eqv.assignR {e1 e2 : Env} (h : Eqv e1 e2) (rt : RT) (v : Int64) : Rel (assignR e1 rt v) (assignR e2 rt v) := by
+  cases rt with
+  | var n => exact ⟨rfl, h.setVar n v⟩
+  | elem n i =>
+    have := h.setElem n i v
+    rcases h1 : Arith.setElem e1 n i v with ⟨a1, b1⟩
+    rcases h2 : Arith.setElem e2 n i v with ⟨a2, b2⟩
+    rw [h1, h2] at this
+    obtain ⟨hb, ha⟩ := this
+    simp only at hb ha
+    subst hb
+    simp only [Arith.assignR, h1, h2, Rel]
+    cases b1 <;> exact ⟨rfl, ha⟩
+
+
+def RelT (r1 r2 : Env × Except Err RT) : Prop := r1.2 = r2.2 ∧ Eqv r1.1 r2.1
+
+theorem rel_fst {a : Env} {r : Res} {r2 : Env × Res} (h : Rel (a, r) r2) : ∃ a', r2 = (a', r) ∧ Eqv a a' := by
+  obtain ⟨a2, q2⟩ := r2
+  obtain ⟨h1, h2⟩ := h
+  simp only at h1 h2
+  exact ⟨a2, by rw [h1], h2⟩
+
+theorem relT_fst {a : Env} {r : Except Err RT} {r2 : Env × Except Err RT} (h : RelT (a, r) r2) :
+    ∃ a', r2 = (a', r) ∧ Eqv a a' := by
+  obtain ⟨a2, q2⟩ := r2
+  obtain ⟨h1, h2⟩ := h
+  simp only at h1 h2
+  exact ⟨a2, by rw [h1], h2⟩
+
+theorem rel_mk {a a' : Env} (r : Res) (h : Eqv a a') : Rel (a, r) (a', r) := ⟨rfl, h⟩
+
+/-- a result that is not `ok` is an error -/
+theorem not_ok_err {x : Env × Res} (h : ∀ (e : Env) (v : Int64), x = (e, Res.ok v) → False) : ∃ e er, x = (e, Res.err er) := by
+  obtain ⟨e, r⟩ := x
+  cases r with
+  | ok v => exact absurd rfl (fun hh => h e v hh)
+  | err er => exact ⟨e, er, rfl⟩
+
+/-- from an induction hypothesis and the known result on the left, the result on the right -/
+theorem ih_fst {x1 x2 : Env × Res} {a : Env} {r : Res} (h : Rel x1 x2) (hx : x1 = (a, r)) :
+    ∃ a', x2 = (a', r) ∧ Eqv a a' := rel_fst (hx ▸ h)
+
+theorem ihT_fst {x1 x2 : Env × Except Err RT} {a : Env} {r : Except Err RT} (h : RelT x1 x2) (hx : x1 = (a, r)) :
+    ∃ a', x2 = (a', r) ∧ Eqv a a' := relT_fst (hx ▸ h)
+
+theorem eval_visible_all (P : Str → Option Expr) :
+    (∀ d env e, ∀ env', Eqv env env' → Rel (eval P d env e) (eval P d env' e)) ∧
+    (∀ d env rt, ∀ env', Eqv env env' → Rel (derefR P d env rt) (derefR P d env' rt)) ∧
+    (∀ d env s, ∀ env', Eqv env env' → Rel (derefStr P d env s) (derefStr P d env' s)) ∧
+    (∀ d env t, ∀ env', Eqv env env' → RelT (resolve P d env t) (resolve P d env' t)) := by
+  apply eval.mutual_induct P
+    (motive1 := fun d env e => ∀ env', Eqv env env' → Rel (eval P d env e) (eval P d env' e))
+    (motive2 := fun d env rt => ∀ env', Eqv env env' → Rel (derefR P d env rt) (derefR P d env' rt))
+    (motive3 := fun d env s => ∀ env', Eqv env env' → Rel (derefStr P d env s) (derefStr P d env' s))
+    (motive4 := fun d env t => ∀ env', Eqv env env' → RelT (resolve P d env t) (resolve P d env' t))
+  -- 1 lit
+  · intro d env n env' he
+    simp only [eval]; exact rel_mk _ he
+  -- 2 ref, resolved
+  · intro d env t env0 rt hres ih4 ih2 env' he
+    obtain ⟨e0', hres', he0⟩ := ihT_fst (ih4 env' he) hres
+    simp only [eval, hres, hres']
+    exact ih2 e0' he0
+  -- 3 ref, subscript error
+  · intro d env t env0 er hres ih4 env' he
+    obtain ⟨e0', hres', he0⟩ := ihT_fst (ih4 env' he) hres
+    simp only [eval, hres, hres']
+    exact rel_mk _ he0
+  -- 4 un ok
+  · intro d env op x env1 v hx ih env' he
+    obtain ⟨e1', hx', he1⟩ := ih_fst (ih env' he) hx
+    simp only [eval, hx, hx']
+    exact rel_mk _ he1
+  -- 5 un error
+  · intro d env op x hno ih env' he
+    obtain ⟨e1, er, hx⟩ := not_ok_err hno
+    obtain ⟨e1', hx', he1⟩ := ih_fst (ih env' he) hx
+    simp only [eval, hx, hx']
+    exact rel_mk _ he1
+  -- 6 bin, short circuit
+  · intro d env op l r env1 v hl v1 hs ihl env' he
+    obtain ⟨e1', hl', he1⟩ := ih_fst (ihl env' he) hl
+    simp only [eval, hl, hl', hs]
+    exact rel_mk _ he1
+  -- 7 bin, both ok
+  · intro d env op l r env1 v hl hs env2 w hr ihl ihr env' he
+    obtain ⟨e1', hl', he1⟩ := ih_fst (ihl env' he) hl
+    obtain ⟨e2', hr', he2⟩ := ih_fst (ihr e1' he1) hr
+    simp only [eval, hl, hl', hs, hr, hr']
+    exact rel_mk _ he2
+  -- 8 bin, right error
+  · intro d env op l r env1 v hl hs hno ihl ihr env' he
+    obtain ⟨e1', hl', he1⟩ := ih_fst (ihl env' he) hl
+    obtain ⟨e2, er, hr⟩ := not_ok_err hno
+    obtain ⟨e2', hr', he2⟩ := ih_fst (ihr e1' he1) hr
+    simp only [eval, hl, hl', hs, hr, hr']
+    exact rel_mk _ he2
+  -- 9 bin, left error
+  · intro d env op l r hno ihl env' he
+    obtain ⟨e1, er, hl⟩ := not_ok_err hno
+    obtain ⟨e1', hl', he1⟩ := ih_fst (ihl env' he) hl
+    simp only [eval, hl, hl']
+    exact rel_mk _ he1
+  -- 10 cond, then
+  · intro d env c t f env1 v hc hv ihc iht env' he
+    obtain ⟨e1', hc', he1⟩ := ih_fst (ihc env' he) hc
+    simp only [eval, hc, hc', hv, if_true]
+    simpa [hv] using iht e1' he1
+  -- 11 cond, else
+  · intro d env c t f env1 v hc hv ihc ihf env' he
+    obtain ⟨e1', hc', he1⟩ := ih_fst (ihc env' he) hc
+    simp only [eval, hc, hc', hv, if_false]
+    simpa [hv] using ihf e1' he1
+  -- 12 cond, condition error
+  · intro d env c t f hno ihc env' he
+    obtain ⟨e1, er, hc⟩ := not_ok_err hno
+    obtain ⟨e1', hc', he1⟩ := ih_fst (ihc env' he) hc
+    simp only [eval, hc, hc']
+    exact rel_mk _ he1
+  -- 13 assign ok
+  · intro d env t r env1 v hr env0 rt hres ihr ih4 env' he
+    obtain ⟨e1', hr', he1⟩ := ih_fst (ihr env' he) hr
+    obtain ⟨e0', hres', he0⟩ := ihT_fst (ih4 e1' he1) hres
+    simp only [eval, hr, hr', hres, hres']
+    exact he0.assignR rt v
+  -- 14 assign, subscript error
+  · intro d env t r env1 v hr env0 er hres ihr ih4 env' he
+    obtain ⟨e1', hr', he1⟩ := ih_fst (ihr env' he) hr
+    obtain ⟨e0', hres', he0⟩ := ihT_fst (ih4 e1' he1) hres
+    simp only [eval, hr, hr', hres, hres']
+    exact rel_mk _ he0
+  -- 15 assign, rhs error
+  · intro d env t r hno ihr env' he
+    obtain ⟨e1, er, hr⟩ := not_ok_err hno
+    obtain ⟨e1', hr', he1⟩ := ih_fst (ihr env' he) hr
+    simp only [eval, hr, hr']
+    exact rel_mk _ he1
+  -- 16 incDec ok
+  · intro d env op t env0 rt hres env1 v hd env2 v1 ha ih4 ih2 env' he
+    obtain ⟨e0', hres', he0⟩ := ihT_fst (ih4 env' he) hres
+    obtain ⟨e1', hd', he1⟩ := ih_fst (ih2 e0' he0) hd
+    obtain ⟨e2', ha', he2⟩ := ih_fst (he1.assignR rt (incNew op v)) ha
+    simp only [eval, hres, hres', hd, hd', ha, ha']
+    exact rel_mk _ he2
+  -- 17 incDec, assignment fails
+  · intro d env op t env0 rt hres env1 v hd hno ih4 ih2 env' he
+    obtain ⟨e0', hres', he0⟩ := ihT_fst (ih4 env' he) hres
+    obtain ⟨e1', hd', he1⟩ := ih_fst (ih2 e0' he0) hd
+    obtain ⟨e2, er, ha⟩ := not_ok_err hno
+    obtain ⟨e2', ha', he2⟩ := ih_fst (he1.assignR rt (incNew op v)) ha
+    simp only [eval, hres, hres', hd, hd', ha, ha']
+    exact rel_mk _ he2
+  -- 18 incDec, read fails
+  · intro d env op t env0 rt hres hno ih4 ih2 env' he
+    obtain ⟨e0', hres', he0⟩ := ihT_fst (ih4 env' he) hres
+    obtain ⟨e1, er, hd⟩ := not_ok_err hno
+    obtain ⟨e1', hd', he1⟩ := ih_fst (ih2 e0' he0) hd
+    simp only [eval, hres, hres', hd, hd']
+    exact rel_mk _ he1
+  -- 19 incDec, subscript error
+  · intro d env op t env0 er hres ih4 env' he
+    obtain ⟨e0', hres', he0⟩ := ihT_fst (ih4 env' he) hres
+    simp only [eval, hres, hres']
+    exact rel_mk _ he0
+  -- 20 opAssign, short circuit
+  · intro d env op t r env0 rt hres env1 v hd v1 hs ih4 ih2 env' he
+    obtain ⟨e0', hres', he0⟩ := ihT_fst (ih4 env' he) hres
+    obtain ⟨e1', hd', he1⟩ := ih_fst (ih2 e0' he0) hd
+    simp only [eval, hres, hres', hd, hd', hs]
+    exact he1.assignR rt v1
+  -- 21 opAssign ok
+  · intro d env op t r env0 rt hres env1 v hd hs env2 w hr v2 hab ih4 ih2 ihr env' he
+    obtain ⟨e0', hres', he0⟩ := ihT_fst (ih4 env' he) hres
+    obtain ⟨e1', hd', he1⟩ := ih_fst (ih2 e0' he0) hd
+    obtain ⟨e2', hr', he2⟩ := ih_fst (ihr e1' he1) hr
+    simp only [eval, hres, hres', hd, hd', hs, hr, hr', hab]
+    exact he2.assignR rt v2
+  -- 22 opAssign, operator error
+  · intro d env op t r env0 rt hres env1 v hd hs env2 w hr er hab ih4 ih2 ihr env' he
+    obtain ⟨e0', hres', he0⟩ := ihT_fst (ih4 env' he) hres
+    obtain ⟨e1', hd', he1⟩ := ih_fst (ih2 e0' he0) hd
+    obtain ⟨e2', hr', he2⟩ := ih_fst (ihr e1' he1) hr
+    simp only [eval, hres, hres', hd, hd', hs, hr, hr', hab]
+    exact rel_mk _ he2
+  -- 23 opAssign, rhs error
+  · intro d env op t r env0 rt hres env1 v hd hs hno ih4 ih2 ihr env' he
+    obtain ⟨e0', hres', he0⟩ := ihT_fst (ih4 env' he) hres
+    obtain ⟨e1', hd', he1⟩ := ih_fst (ih2 e0' he0) hd
+    obtain ⟨e2, er, hr⟩ := not_ok_err hno
+    obtain ⟨e2', hr', he2⟩ := ih_fst (ihr e1' he1) hr
+    simp only [eval, hres, hres', hd, hd', hs, hr, hr']
+    exact rel_mk _ he2
+  -- 24 opAssign, read fails
+  · intro d env op t r env0 rt hres hno ih4 ih2 env' he
+    obtain ⟨e0', hres', he0⟩ := ihT_fst (ih4 env' he) hres
+    obtain ⟨e1, er, hd⟩ := not_ok_err hno
+    obtain ⟨e1', hd', he1⟩ := ih_fst (ih2 e0' he0) hd
+    simp only [eval, hres, hres', hd, hd']
+    exact rel_mk _ he1
+  -- 25 opAssign, subscript error
+  · intro d env op t r env0 er hres ih4 env' he
+    obtain ⟨e0', hres', he0⟩ := ihT_fst (ih4 env' he) hres
+    simp only [eval, hres, hres']
+    exact rel_mk _ he0
+  -- 26 derefR var
+  · intro d env n ih3 env' he
+    simp only [derefR]
+    rw [← he.varStr n]
+    exact ih3 env' he
+  -- 27 derefR elem, bad subscript
+  · intro d env n i hnone env' he
+    have hnone' : elemStr env' n i = none := by rw [← he.elemStr n i]; exact hnone
+    simp only [derefR, hnone, hnone']
+    exact rel_mk _ he
+  -- 28 derefR elem
+  · intro d env n i s hs ih3 env' he
+    have hs' : elemStr env' n i = some s := by rw [← he.elemStr n i]; exact hs
+    simp only [derefR, hs, hs']
+    exact ih3 env' he
+  -- 29 derefStr, contents do not parse
+  · intro d env s hp env' he
+    simp only [derefStr, hp]
+    exact rel_mk _ he
+  -- 30 derefStr literal
+  · intro d env s n hp env' he
+    simp only [derefStr, hp]
+    exact rel_mk _ he
+  -- 31 derefStr, too deep
+  · intro d env s e hnl hp hd env' he
+    rw [derefStr, derefStr, hp]
+    cases e with
+    | lit n => exact absurd rfl (hnl n)
+    | _ => simp only [hd, dif_pos]; exact rel_mk _ he
+  -- 32 derefStr, one level deeper
+  · intro d env s e hnl hp hd ih env' he
+    rw [derefStr, derefStr, hp]
+    cases e with
+    | lit n => exact absurd rfl (hnl n)
+    | _ => simp only [hd, dif_neg, not_false_eq_true]; exact ih env' he
+  -- 33 resolve var
+  · intro d env n env' he
+    simp only [resolve]; exact ⟨rfl, he⟩
+  -- 34 resolve elem
+  · intro d env n idx env1 i hi ih env' he
+    obtain ⟨e1', hi', he1⟩ := ih_fst (ih env' he) hi
+    simp only [resolve, hi, hi']
+    exact ⟨rfl, he1⟩
+  -- 35 resolve elem, subscript error
+  · intro d env n idx env1 er hi ih env' he
+    obtain ⟨e1', hi', he1⟩ := ih_fst (ih env' he) hi
+    simp only [resolve, hi, hi']
+    exact ⟨rfl, he1⟩
+
+
+theorem Env.get_append (l g : Env) (n : Str) :
+    Env.get (l ++ g) n = (match Env.get l n with | some v => some v | none => Env.get g n) := by
+  induction l with
+  | nil => simp [Env.get, List.lookup]
+  | cons kv rest ih =>
+    obtain ⟨k, w⟩ := kv
+    simp only [Env.get, List.cons_append, List.lookup] at ih ⊢
+    cases (n == k) with
+    | true => rfl
+    | false => exact ih
+
+/-- assignment goes to the innermost (first) binding of the name and leaves what it hides alone -/
+theorem Env.set_append_of_bound (l g : Env) (n : Str) (v : Val) (h : Env.get l n ≠ none) :
+    Env.set (l ++ g) n v = Env.set l n v ++ g := by
+  induction l with
+  | nil => simp [Env.get, List.lookup] at h
+  | cons kv rest ih =>
+    obtain ⟨k, w⟩ := kv
+    simp only [List.cons_append, Env.set]
+    by_cases hk : k = n
+    · simp [hk]
+    · have hnk : (n == k) = false := by simp; exact fun e => hk e.symm
+      simp only [hk, if_false, List.cons_append, List.cons.injEq, true_and]
+      apply ih
+      simpa [Env.get, List.lookup, hnk] using h
+
 end BrushVerif.Arith
